@@ -14,6 +14,9 @@ SELFIES_FRAGS = INDEX + [
     "[/]", "[\\]", "[=Branch1", "Branch1]", "[Ring1]]", "[[Ring1]", "[Ring1][", "[?]", "[*]", "[C:1]", "[C+1-1]", "[C+10]", "[C-100]",
     "[\uff11\uff12C]", "[CH\uff12]", "[C+\u0661]", "[C\u0301]", "[\u0421]", "[\u216b]", "[\u00b2H]", "[0C]", "[000C]", "[C@@H0]", "[CH9]",
     "[ C]", "[C ]", "[C]\x00", "\x00", "[\x00]", "\ud800", "[=C][=C]", "[S][=Branch1][C][=O][=Branch1][C][=O][O]",
+    # characters that are special to str.format / % / regex / repr, inside and outside symbols
+    "[{x}]", "[C}]", "[{}]", "[{0}]", "[{Ring1]", "[%s]", "[%d]", "[%(x)s]", "{", "}", "{}", "%s", "[\\]", "[\\C]", "[(C)]", "[C|N]",
+    "[^C]", "[C$]", "[C*]", "[.*]", "[\\d]", "[C\n]", "[C\\n]", "[Branch1_4]", "[Branch3_5]", "[Branch1_\u0664]", "[Expl~Ring1]", "[Branch1_]",
 ]
 
 SMILES_FRAGS = [
@@ -25,7 +28,7 @@ SMILES_FRAGS = [
     "[", "]", "[]", "[[C]]", "[C", "C]", "[C@@@H]", "[C@TH1]", "[C@SP1]", "[C@@H2]", "[CH10]", "[C+0]", "[C-0]", "[C++++++]", "[C+-]", "[C+1+1]",
     "[CH]", "[CH1]", "[CHH]", "[H+]", "[Xx]", "[xx]", "[cl]", "[CL]", "[Uue]", "[12]", "[C12]", "[12C12]", "[Cu@OH1]", "[co]", "[Co]", " ", "\n",
     "\t", "\x00", "C C", "C\n", "\u00b2", "\uff11", "\u0661", "[\uff11\uff13C]", "[CH\uff12]", "[C+\uff11]", "[C:\uff11]", "%\uff11\uff12", "\u0421",
-    "\u0441", "c\u0301", "[\u0421]", "Cl1", "Br(", "Sc", "Si", "se", "Se", "[Se]", "te", "[pH]", "p", "s(=O)(=O)", "n(C)", "c(=O)", "[nH+]", "[NH+]",
+    "\u0441", "c\u0301", "[\u0421]", "{", "}", "[{x}]", "[C{}]", "%s", "[%s]", "[C%d]", "{0}", "[^C]", "[C|N]", "[C$]", "\\\\", "[\\C]", "Cl1", "Br(", "Sc", "Si", "se", "Se", "[Se]", "te", "[pH]", "p", "s(=O)(=O)", "n(C)", "c(=O)", "[nH+]", "[NH+]",
     "[N-]", "[S-]", "[s+]", "[OH3+3]", "[Zz]", "&", "^", "{", "}", "@", "@@", "H", "h", "D", "T", "X", "R", "A", "a", "Q", "0C", "1C", "C0", "C%01", "C%001",
 ]
 
